@@ -28,20 +28,24 @@ struct Sizes {
 }
 
 fn main() {
+    // anyhow captures a backtrace for every (expected) rejection when RUST_BACKTRACE is set and all
+    // threads then serialise on std's backtrace lock; no other thread exists yet
+    std::env::set_var("RUST_LIB_BACKTRACE", "0");
     let args = vcore::parse_args();
     vcore::install_panic_hook();
     let mut mon = Monitor::new(&args);
+    mon.max_samples = 8; // 4 proof responses, 2 stake distributions, 2 signer-order cases
     if args.prop != "C11" {
         eprintln!("mon-proof: unknown property {}", args.prop);
         std::process::exit(2);
     }
     if let Some(f) = &args.replay {
-        replay(f);
+        replay(f, &mut mon);
         return;
     }
     let sizes = match args.tier {
-        Tier::Quick => Sizes { shards: 16, worlds_per_shard: 2, beacons: (2, 3), queries_fresh: 5, queries_ahead: 2, stake_cases: 8 },
-        Tier::Thorough => Sizes { shards: 64, worlds_per_shard: 10, beacons: (2, 5), queries_fresh: 8, queries_ahead: 3, stake_cases: 40 },
+        Tier::Quick => Sizes { shards: 16, worlds_per_shard: 4, beacons: (2, 3), queries_fresh: 6, queries_ahead: 2, stake_cases: 10 },
+        Tier::Thorough => Sizes { shards: 64, worlds_per_shard: 20, beacons: (2, 5), queries_fresh: 8, queries_ahead: 3, stake_cases: 40 },
     };
     let base = std::env::temp_dir().join(format!("verif-c11-{}-{}", std::process::id(), args.seed));
     let _ = std::fs::remove_dir_all(&base);
@@ -71,6 +75,10 @@ fn main() {
     let tasks = c06::tasks(thorough);
     vcore::run_shards(&mut mon, tasks.len() as u64, threads, |i, m| c06::run_task(tasks[i as usize], m, thorough));
 
+    let (errs, qs) = (mon.counter("honest_service_errors"), mon.counter("honest_queries"));
+    if qs == 0 || errs * 20 > qs {
+        mon.inconclusive(&format!("the honest prover services failed on {errs} of {qs} queries: the workload does not exercise the client enough"));
+    }
     mon.extra.insert(
         "honest_side".into(),
         json!("REAL services wired by mithril_aggregator::dependency_injection::DependenciesBuilder over file-backed sqlite: AggregatorCardanoChainDataRepository, CardanoChainDataImporter (fed by the harness chain through a BlockScanner), MithrilProverService, LegacyMithrilProverService, CardanoTransactionsSignableBuilder, CardanoBlocksTransactionsSignableBuilder, StakePoolStore + CardanoStakeDistributionSignableBuilder; the HTTP handlers' response assembly (private) is mirrored in agg.rs::serve_*"),
@@ -85,6 +93,28 @@ fn main() {
         ],
         400,
     );
+}
+
+/// what a response looks like, short enough for the evidence file
+fn excerpt(wire: &str) -> Value {
+    let mut v: Value = serde_json::from_str(wire).unwrap_or(Value::Null);
+    fn cut(v: &mut Value) {
+        match v {
+            Value::String(s) if s.len() > 80 => *s = format!("{}… ({} chars)", &s[..48], s.len()),
+            Value::Array(a) => {
+                if a.len() > 3 {
+                    let n = a.len();
+                    a.truncate(3);
+                    a.push(Value::String(format!("… {} more", n - 3)));
+                }
+                a.iter_mut().for_each(cut)
+            }
+            Value::Object(o) => o.values_mut().for_each(cut),
+            _ => {}
+        }
+    }
+    cut(&mut v);
+    v
 }
 
 fn sha(s: &str) -> String {
@@ -276,39 +306,57 @@ async fn run_world(shard: u64, w: u64, dir: PathBuf, mon: &mut Monitor, sizes: &
     mon.count_n("world|signing_rounds", beacons.len() as u64);
     let mut st = WorldState { tag: format!("s{shard}-w{w}"), chain: &chain, certs: vec![], cert_map: HashMap::new(), history: vec![] };
     let epoch = 100 + shard;
-    let mut prev: Option<(Cert, Cert)> = None;
+    let mut prev: Option<(Option<Cert>, Cert)> = None;
     for (i, &b) in beacons.iter().enumerate() {
         let offset = *rnd::pick(&mut rng, &[0u64, 0, 1, 7, 15, 30, 100, 2160]);
-        // signing round: the real signable builders import up to the beacon and compute the roots
-        let cl = agg.sign_legacy(epoch + i as u64, b).await?;
+        // signing round: the real signable builders import up to the beacon and compute the roots.
+        // v2 beacons are arbitrary block numbers (CardanoBlocksTransactionsSigningConfig: multiple
+        // of any step); legacy beacons are always the last number of a block range
+        // (CardanoTransactionsSigningConfig::compute_block_number_to_be_signed: multiple of 15, -1).
         let cv = agg.sign_v2(epoch + i as u64, b, offset).await?;
-        for c in [&cl, &cv] {
+        let lb = ((b + 1) / chain::RANGE * chain::RANGE).checked_sub(1);
+        let cl = match lb {
+            Some(lb) if chain.blocks_upto(lb).iter().any(|x| !x.txs.is_empty()) => Some(agg.sign_legacy(epoch + i as u64, lb).await?),
+            _ => {
+                // nothing to sign: the legacy signable builder cannot compute the root of an empty set
+                mon.count("beacon|legacy_round_skipped_no_transaction_in_complete_ranges");
+                None
+            }
+        };
+        for c in cl.iter().chain(std::iter::once(&cv)) {
             st.certs.push(c.clone());
             st.cert_map.insert(c.hash().to_string(), c.clone());
         }
         mon.count(&format!(
-            "beacon|{}",
+            "beacon|v2|{}",
             if b > chain.tip() { "beyond_tip" } else if b == chain.tip() { "at_tip" } else if (b + 1) % chain::RANGE == 0 { "range_complete" } else if !chain.blocks.iter().any(|x| x.number == b) { "in_gap" } else { "inside_range" }
         ));
         // the previous certificate is still the latest signed entity while the store is already
         // imported for the new beacon
         if let Some((pl, pv)) = &prev {
-            for (fmt, cert) in [(Fmt::Legacy, pl), (Fmt::TxV2, pv), (Fmt::BlkV2, pv)] {
+            for (fmt, cert) in [(Fmt::Legacy, pl.as_ref()), (Fmt::TxV2, Some(pv)), (Fmt::BlkV2, Some(pv))] {
+                let Some(cert) = cert else { continue };
                 for _ in 0..sizes.queries_ahead {
                     let kind = rnd::below(&mut rng, 7);
-                    one_query(&agg, &mut st, mon, &mut rng, fmt, cert, kind, "store_ahead").await?;
+                    one_query(&agg, &mut st, mon, &mut rng, fmt, cert, kind, "store_ahead").await;
                 }
             }
         }
-        // artifact creation: prover caches are rebuilt for the new beacon
-        agg.artifact_created(b).await?;
-        for (fmt, cert) in [(Fmt::Legacy, &cl), (Fmt::TxV2, &cv), (Fmt::BlkV2, &cv)] {
+        // artifact creation: prover caches are rebuilt for the new beacons
+        if let Some(cl) = &cl {
+            agg.legacy_prover.compute_cache(mithril_common::entities::BlockNumber(cl.beacon)).await?;
+        }
+        agg.prover.compute_cache(mithril_common::entities::BlockNumber(b)).await?;
+        for (fmt, cert) in [(Fmt::Legacy, cl.as_ref()), (Fmt::TxV2, Some(&cv)), (Fmt::BlkV2, Some(&cv))] {
+            let Some(cert) = cert else { continue };
             for qn in 0..sizes.queries_fresh {
                 let kind = if qn < 7 { (qn as u64 + shard + w) % 7 } else { rnd::below(&mut rng, 7) };
-                one_query(&agg, &mut st, mon, &mut rng, fmt, cert, kind, "fresh").await?;
+                one_query(&agg, &mut st, mon, &mut rng, fmt, cert, kind, "fresh").await;
             }
         }
-        prev = Some((cl, cv));
+        // a legacy round may be skipped: the previous legacy certificate stays the latest one
+        let keep = prev.take().and_then(|(pl, _)| pl);
+        prev = Some((cl.or(keep), cv));
     }
     // stake distributions of this world (their certificates join the same certificate store)
     let WorldState { tag, mut certs, mut cert_map, .. } = st;
@@ -327,10 +375,20 @@ async fn one_query(
     cert: &Cert,
     kind: u64,
     state: &str,
-) -> anyhow::Result<()> {
+) {
     let chain = st.chain;
     let (qname, q) = gen_query(fmt, chain, cert.beacon, rng, kind);
-    let honest = serve(agg, fmt, cert, &q).await?;
+    mon.count("honest_queries");
+    let honest = match serve(agg, fmt, cert, &q).await {
+        Ok(r) => r,
+        Err(e) => {
+            // the honest service failed (HTTP 500 in the aggregator): nothing is reported to the client
+            let first = format!("{e}").lines().next().unwrap_or("").chars().take(80).collect::<String>();
+            mon.count("honest_service_errors");
+            mon.count(&format!("{}|honest_service_error|{}|{}|{}", fmt.as_str(), qname, state, first));
+            return;
+        }
+    };
     mon.count(&format!("{}|query|{}|{}", fmt.as_str(), qname, state));
     mon.count_n(&format!("{}|honest_certified_items", fmt.as_str()), honest.certified_count() as u64);
     mon.count_n(&format!("{}|honest_non_certified_items", fmt.as_str()), honest.non_certified_count() as u64);
@@ -423,7 +481,6 @@ async fn one_query(
             st.history.remove(0);
         }
     }
-    Ok(())
 }
 
 fn judge(st: &WorldState<'_>, mon: &mut Monitor, fmt: Fmt, cert: &Cert, c: &tamper::Candidate, state: &str, qname: &str) {
@@ -471,9 +528,10 @@ fn judge(st: &WorldState<'_>, mon: &mut Monitor, fmt: Fmt, cert: &Cert, c: &tamp
             let sig = if state == "store_ahead" { oracle::SIG_HONEST_REJECTED_AHEAD } else { oracle::SIG_HONEST_REJECTED };
             mon.violation(sig, &format!("honest {} response ({state}, query {qname}, beacon {}) rejected: {:?}", fmt.as_str(), cert.beacon, outcome), replay(&outcome, &f));
         }
-        if mon.wants_sample() && resp.certified_count() > 1 && outcome.accepted() {
+        if st.tag.starts_with("s0-") && mon.counter("sample|proof") < 2 && resp.certified_count() > 1 && outcome.accepted() {
+            mon.count("sample|proof");
             mon.sample(json!({"kind": "proof", "format": fmt.as_str(), "class": "honest", "state": state, "query": qname, "beacon": cert.beacon,
-                "certified_items": resp.certified_count(), "non_certified": resp.non_certified_count(), "outcome": outcome.label()}));
+                "certified_items": resp.certified_count(), "non_certified": resp.non_certified_count(), "outcome": outcome.label(), "response": excerpt(&c.wire)}));
         }
         return;
     }
@@ -489,10 +547,12 @@ fn judge(st: &WorldState<'_>, mon: &mut Monitor, fmt: Fmt, cert: &Cert, c: &tamp
                 replay(&outcome, &f),
             );
             let _ = detail;
-        } else if mon.wants_sample() && mon.evaluations % 997 == 0 {
+        } else if st.tag.starts_with("s0-") && mon.counter("sample|proof") < 4 && mon.evaluations % 97 == 0 {
+            mon.count("sample|proof");
             mon.sample(json!({"kind": "proof", "format": fmt.as_str(), "class": c.class, "state": state, "outcome": outcome.label(),
                 "false_claims": f.iter().map(|(s, _)| *s).collect::<Vec<_>>(),
-                "detail": match &outcome { Outcome::RejectedVerify(e) | Outcome::RejectedDecode(e) => e.clone(), _ => String::new() }}));
+                "detail": match &outcome { Outcome::RejectedVerify(e) | Outcome::RejectedDecode(e) => e.clone(), _ => String::new() },
+                "response": excerpt(&c.wire)}));
         }
     } else {
         // every certified claim of the altered response is true and proven under the signed root
@@ -508,7 +568,18 @@ fn judge(st: &WorldState<'_>, mon: &mut Monitor, fmt: Fmt, cert: &Cert, c: &tamp
 // -------------------------------------------------------------------------------------------------
 
 /// `--replay FILE`: re-run the client on the stored response against the stored certificate
-fn replay(path: &std::path::Path) {
+fn replay(path: &std::path::Path, mon: &mut Monitor) {
+    // a reproduced witness of a registered known finding is reported as such (exit 0); the
+    // evidence file is not touched by a replay
+    let mut reproduced = |sig: &str, what: &str| -> ! {
+        mon.violation(sig, what, Value::Null);
+        if mon.known_hit_count(sig) > 0 {
+            println!("KNOWN-FINDING: property=C11 witness reproduced [signature: {sig}] {what}");
+            std::process::exit(0);
+        }
+        println!("VIOLATION property=C11 replay={}\n  signature: {sig}\n  what: {what}", path.display());
+        std::process::exit(1);
+    };
     let doc: Value = match std::fs::read_to_string(path).ok().and_then(|s| serde_json::from_str(&s).ok()) {
         Some(v) => v,
         None => {
@@ -529,8 +600,7 @@ fn replay(path: &std::path::Path) {
             println!("served map:    {}", serde_json::to_string(&served).unwrap());
             println!("certified root {rc}\nserved root    {rs}");
             if certified != served && rc == rs {
-                println!("VIOLATION property=C11 replay={} (different maps, same Merkle root)", path.display());
-                std::process::exit(1);
+                reproduced(doc["signature"].as_str().unwrap_or(stake::SIG_SHIFT), "different stake maps, same Merkle root: the served map recomputes the signed message");
             }
             println!("HELD property=C11 replayed case does not reproduce");
         }
@@ -552,8 +622,7 @@ fn replay(path: &std::path::Path) {
             println!("client outcome: {o:?}");
             println!("false claims recorded: {}", r["false_claims"]);
             if o.accepted() {
-                println!("VIOLATION property=C11 replay={}", path.display());
-                std::process::exit(1);
+                reproduced(doc["signature"].as_str().unwrap_or("C11 replayed response accepted"), "the stored response is accepted against the stored certificate");
             }
             println!("HELD property=C11 replayed response is rejected");
         }
